@@ -110,12 +110,11 @@ theorem uBuild_spec (C : UCfg) (P : Params) (ep : Nat → Nat × Nat) (ns : List
 
 theorem circ1_apply (nil : Nat) (prev : Nat → Nat) (a v t : Nat) :
     circ1 nil prev a v t = if t = a ∧ prev a = nil then v else prev t := by
-  unfold circ1
-  by_cases h : prev a = nil
-  · by_cases e : t = a
-    · simp [h, e, upd]
-    · simp [h, e, upd]
-  · simp [h]
+  unfold circ1 upd
+  by_cases e : t = a
+  · subst e
+    by_cases h : prev t = nil <;> simp [h]
+  · simp [e]
 
 theorem uCirc_spec (C : UCfg) (P : Params) (size : Nat) (s : USt) :
     ∀ m prev, m ≤ size → ∀ t, uCirc C P size s m prev t =
